@@ -46,6 +46,15 @@ class DPtr(Ptr):
     __slots__ = ()
 
 
+class Vector:
+    """a std::vector: iterators are Ptr(self.lst, index). insert() keeps the list object, so iterators taken before an insertion
+    keep their positions, as they do in a vector whose capacity was reserved"""
+    __slots__ = ('lst',)
+
+    def __init__(self, lst=None):
+        self.lst = lst if lst is not None else []
+
+
 class OutOfBounds(AnalysisBroken):
     """a store or load outside a local array of the interpreted function"""
 
@@ -56,6 +65,33 @@ class UndefinedConversion(AnalysisBroken):
 
 class UndefinedShift(AnalysisBroken):
     """a shift whose count is negative or not smaller than the width of the (promoted) left operand"""
+
+
+class ListView:
+    """environment-like view of an array, so that Ref(ListView(arr), i) is a reference to the element arr[i]"""
+    __slots__ = ('arr',)
+
+    def __init__(self, arr):
+        self.arr = arr
+
+    def get(self, i, default=0):
+        return self.arr[i] if 0 <= i < len(self.arr) else default
+
+    def __getitem__(self, i):
+        if not (0 <= i < len(self.arr)):
+            raise OutOfBounds('mini-interpreter: reference to element %d of an array of %d' % (i, len(self.arr)))
+        return self.arr[i]
+
+    def __setitem__(self, i, v):
+        if not (0 <= i < len(self.arr)):
+            raise OutOfBounds('mini-interpreter: store to element %d of an array of %d' % (i, len(self.arr)))
+        self.arr[i] = v
+
+    def setdefault(self, i, v):
+        return self.arr[i]
+
+    def __contains__(self, i):
+        return 0 <= i < len(self.arr)
 
 
 class Ref:
@@ -91,6 +127,9 @@ def _wrap(t, v):
 def _mask(t, v):
     m = _UMASK.get((t or '').replace('const ', '').strip())
     return v & m if m is not None and isinstance(v, int) else v
+
+
+_VEC2_ALIAS = {'u': 'x', 'v': 'y', 're': 'x', 'im': 'y'}
 
 
 def _is_vec2(t):
@@ -223,6 +262,8 @@ class Mini:
                     return env[e.n]
             if e.dk == 'param' and ('&' in (e.t or '') or 'struct' in (e.ct or '') or 'Stream' in (e.t or '')):
                 return ('opaque', e.n)      # an output stream or similar handle that is only passed on
+            if '(' in (e.t or '') and e.dk not in ('local', 'param'):
+                return ('function', e.qn or e.n)        # a function handed over as a comparator / callback
             raise AnalysisBroken('mini-interpreter: unbound variable `%s`' % e.n)
         if k == 'MemberExpr':
             t = ' '.join(e.text().split())
@@ -244,6 +285,8 @@ class Mini:
                     bv = self.load(bv)          # p->f
                 if isinstance(bv, Obj) and e.n in bv:
                     return bv[e.n]
+                if isinstance(bv, Obj) and e.n in _VEC2_ALIAS and _VEC2_ALIAS[e.n] in bv:
+                    return bv[_VEC2_ALIAS[e.n]]          # Vec2 is a union of {x, y}, {u, v}, {re, im}
                 if isinstance(bv, Obj) and self.obj_store:
                     return 0                    # a field of a zero-initialised / not yet written struct object
             raise AnalysisBroken('mini-interpreter: unbound member `%s`' % t)
@@ -255,16 +298,25 @@ class Mini:
         if k == 'UnaryOperator':
             op = e.op
             if op == '*':
-                return self.load(self.ev(e.child('sub'), env))
+                pv_ = self.ev(e.child('sub'), env)
+                if isinstance(pv_, (Obj, Vector)):
+                    return pv_                   # a pointer to an object is modelled by the object itself
+                return self.load(pv_)
             if op == '&':
                 t = _strip_casts(e.child('sub'))
                 if t.k == 'DeclRefExpr' and t.dk in ('local', 'param'):
                     if isinstance(env.get(t.n), Ptr):
                         return env[t.n]
+                    if isinstance(env.get(t.n), (Obj, Vector)) and self.obj_store:
+                        return env[t.n]         # the address of a struct / vector (or of what a reference to one denotes) is that object
                     return Ref(env, t.n)
                 if t.k == 'ArraySubscriptExpr':
                     b, i = self.ev(t.child('base') or t.c[0], env), self.ev(t.child('idx') or t.c[1], env)
                     return type(b)(b.arr, b.i + i)
+                if t.k == 'MemberExpr' and self.obj_store:
+                    v_ = self.ev(t, env)
+                    if isinstance(v_, (Obj, Vector)):
+                        return v_           # a pointer to a struct / vector member is that object
                 raise AnalysisBroken('mini-interpreter: address of `%s`' % t.text()[:40])
             if op in ('++', '--', 'post++', 'post--'):
                 t = _strip_casts(e.child('sub'))
@@ -348,7 +400,7 @@ class Mini:
             return r_
         if is_assign(e) or k == 'CompoundAssignOperator':
             t = _strip_casts(e.child('lhs'))
-            if t.k == 'MemberExpr' and self.member_store and e.op == '=':
+            if t.k == 'MemberExpr' and self.member_store and e.op == '=' and not (self.obj_store and self.lval_obj(t, env) is not None):
                 r = self.ev(e.child('rhs'), env)
                 self.members[' '.join(t.text().split())] = r
                 return r
@@ -421,10 +473,25 @@ class Mini:
                 import operator as O
                 if isinstance(cur, Ptr):
                     r = type(cur)(cur.arr, cur.i + (r if e.op == '+=' else -r))
+                elif isinstance(cur, Obj) and 'x' in cur and e.op in ('+=', '-=', '*=', '/='):
+                    r = _vec2_op(e.op[0], [cur, r])
+                    if r is None:
+                        raise AnalysisBroken('mini-interpreter: Vec2 operator `%s`' % e.text()[:50])
                 else:
                     r = {'+=': O.add, '-=': O.sub, '*=': O.mul, '|=': O.or_, '&=': O.and_, '^=': O.xor, '<<=': O.lshift, '>>=': O.rshift}[e.op](cur, r)
             tgt_env[tgt_name] = Obj(r) if isinstance(r, Obj) and e.op == '=' and '*' not in (t.t or '') else r      # (a struct is copied, a pointer to one is not)
             return r
+        if k == 'InitListExpr' and self.obj_store and not _is_vec2(e.t) and self.db.records.get((e.ct or e.t or '').replace('const ', '').strip()) is not None \
+                and not (e.t or '').replace('const ', '').replace('gdstk::', '').startswith('Array<'):
+            rec_ = self.db.records[(e.ct or e.t or '').replace('const ', '').strip()]
+            names_ = [f_['n'] for f_ in rec_.get('fields', []) if f_.get('n')]
+            vals_ = [self.ev(c_, env) if c_ is not None and c_.k not in ('ImplicitValueInitExpr',) else 0 for c_ in e.c]
+            if e.j.get('filler'):
+                vals_ += [0] * (len(names_) - len(vals_))
+            o_ = Obj()
+            for n_, v_ in zip(names_, vals_ + [0] * (len(names_) - len(vals_))):
+                o_[n_] = v_
+            return o_
         if k == 'InitListExpr' and self.obj_store and (e.t or '').replace('const ', '').replace('gdstk::', '').startswith('Array<') and \
                 all(c is None or c.k in ('ImplicitValueInitExpr', 'CXXScalarValueInitExpr') or c.cv == 0 or (c.k == 'InitListExpr' and not [y for y in c.c if y is not None]) for c in e.c):
             return Obj(capacity=0, count=0, items=0)
@@ -443,6 +510,8 @@ class Mini:
                 return Obj(v) if isinstance(v, Obj) else v        # struct copy
             if not a and self.obj_store and not _is_vec2(e.t):
                 return Obj()                    # `T local;` of a record type: fields are written before they are read
+            if self.obj_store and k in ('CXXConstructExpr', 'CXXTemporaryObjectExpr') and len(a) == 2 and (e.t or '').replace('const ', '').strip().endswith('IntPoint'):
+                return Obj(X=self.ev(a[0], env), Y=self.ev(a[1], env))
             if self.obj_store and not _is_vec2(e.t) and k in ('CXXConstructExpr', 'CXXTemporaryObjectExpr') and len(a) > 1:
                 return Obj()                    # an object of a class outside the analysed sources (its fields: what the code stores)
             if _is_vec2(e.t) and len(a) in (0, 2):
@@ -450,6 +519,69 @@ class Mini:
             raise AnalysisBroken('mini-interpreter: construction `%s`' % e.text()[:50])
         if k == 'CXXOperatorCallExpr' and (e.callee or '').endswith('::operator()') and any(getattr(x, 'is_lambda', False) for x in (self.db.fn(e.callee, required=False, all=True) or [])):
             k = 'CallExpr'
+        if k == 'CXXOperatorCallExpr' and self.obj_store and ('__normal_iterator' in (e.callee or '') or (e.callee or '').startswith('__gnu_cxx::operator')) and not is_assign(e):
+            ops_ = e.args
+            op_ = e.op or (e.callee or '').split('operator')[-1]
+            if op_ in ('++', '--'):
+                t = _strip_casts(ops_[0])
+                d_ = 1 if op_ == '++' else -1
+                if t.k == 'DeclRefExpr' and isinstance(env.get(t.n), Ptr):
+                    old = env[t.n]
+                    env[t.n] = type(old)(old.arr, old.i + d_)
+                    return old if len(ops_) == 2 else env[t.n]
+                lv = self.lval_obj(t, env)
+                if lv is not None and isinstance(lv[0].get(lv[1]), Ptr):
+                    old = lv[0][lv[1]]
+                    lv[0][lv[1]] = type(old)(old.arr, old.i + d_)
+                    return old if len(ops_) == 2 else lv[0][lv[1]]
+                raise AnalysisBroken('mini-interpreter: iterator step on `%s`' % t.text()[:40])
+            vals = [self.ev(a, env) for a in ops_]
+            if op_ == '->':
+                return vals[0]
+            if op_ == '*' and len(vals) == 1:
+                return self.load(vals[0])
+            if op_ in ('==', '!=') and len(vals) == 2:
+                return int((vals[0] == vals[1]) == (op_ == '=='))
+            if op_ == '+' and len(vals) == 2 and isinstance(vals[0], Ptr):
+                return type(vals[0])(vals[0].arr, vals[0].i + vals[1])
+            if op_ == '-' and len(vals) == 2 and isinstance(vals[0], Ptr):
+                return (vals[0].i - vals[1].i) if isinstance(vals[1], Ptr) else type(vals[0])(vals[0].arr, vals[0].i - vals[1])
+            if op_ in ('<', '>', '<=', '>=') and len(vals) == 2 and all(isinstance(v, Ptr) for v in vals):
+                import operator as O
+                return int({'<': O.lt, '>': O.gt, '<=': O.le, '>=': O.ge}[op_](vals[0].i, vals[1].i))
+            raise AnalysisBroken('mini-interpreter: iterator operator `%s`' % e.text()[:50])
+        if k == 'CXXMemberCallExpr' and self.obj_store and (e.callee or '').startswith('std::vector<') and e.child('obj') is not None:
+            o = self.ev(e.child('obj'), env)
+            if isinstance(o, Ref):
+                o = o.env.get(o.name)
+            if isinstance(o, Ptr):
+                o = self.load(o)
+            if isinstance(o, Vector):
+                m = e.callee.split('::')[-1]
+                args = [self.ev(a, env) for a in e.args]
+                if m == 'begin':
+                    return Ptr(o.lst, 0)
+                if m == 'end':
+                    return Ptr(o.lst, len(o.lst))
+                if m == 'size':
+                    return len(o.lst)
+                if m == 'reserve':
+                    return None
+                if m in ('front', 'back') and o.lst:
+                    return o.lst[0 if m == 'front' else -1]
+                if m == 'empty':
+                    return int(not o.lst)
+                if m == 'push_back':
+                    o.lst.append(Obj(args[0]) if isinstance(args[0], Obj) else args[0])
+                    return None
+                if m == 'insert' and len(args) == 2 and isinstance(args[0], Ptr) and args[0].arr is o.lst:
+                    o.lst.insert(args[0].i, Obj(args[1]) if isinstance(args[1], Obj) else args[1])
+                    return Ptr(o.lst, args[0].i)
+                if m == 'insert' and len(args) == 3 and all(isinstance(a, Ptr) for a in args) and args[0].arr is o.lst and args[1].arr is args[2].arr:
+                    chunk = [Obj(x) if isinstance(x, Obj) else x for x in args[1].arr[args[1].i:args[2].i]]
+                    o.lst[args[0].i:args[0].i] = chunk
+                    return Ptr(o.lst, args[0].i)
+                raise AnalysisBroken("mini-interpreter: std::vector method `%s` with %s" % (e.text()[:50], [type(a).__name__ + (":%s" % (a.arr is o.lst) if isinstance(a, Ptr) else "") for a in args]))
         if k == 'CXXOperatorCallExpr' and not is_assign(e):
             ops_ = e.args
             name = (e.callee or '').split('::')[-1]
@@ -463,6 +595,9 @@ class Mini:
             r = _vec2_op(name[len('operator'):], vals)
             if r is not None:
                 return r
+            if len(vals) == 2 and all(isinstance(v, Obj) and 'X' in v for v in vals) and name[len('operator'):] in ('==', '!='):
+                same = vals[0]['X'] == vals[1]['X'] and vals[0]['Y'] == vals[1]['Y']          # ClipperLib::IntPoint
+                return int(same == (name[len('operator'):] == '=='))
             raise AnalysisBroken('mini-interpreter: operator call `%s`' % e.text()[:50])
         if k == 'CXXMemberCallExpr' and (e.callee or '').startswith('gdstk::Vec2::') and e.child('obj') is not None:
             o = self.ev(e.child('obj'), env)
@@ -477,7 +612,26 @@ class Mini:
                     return o['x'] * o['x'] + o['y'] * o['y']
                 if m == 'ortho' and not args:
                     return Obj(x=-o['y'], y=o['x'])
+                if m in ('length', 'normalize', 'angle') and all(isinstance(o[c_], (int, float)) for c_ in 'xy'):
+                    import math as _m
+                    if m == 'angle' and not args:
+                        return _m.atan2(float(o['y']), float(o['x']))
+                    ln = _m.sqrt(float(o['x']) * float(o['x']) + float(o['y']) * float(o['y']))
+                    if m == 'normalize' and not args:
+                        if ln > 0:
+                            o['x'], o['y'] = float(o['x']) / ln, float(o['y']) / ln
+                        return ln
+                    if m == 'length' and not args:
+                        return ln
             raise AnalysisBroken('mini-interpreter: Vec2 method `%s`' % e.text()[:50])
+        if k == 'CallExpr' and self.obj_store and (e.callee or '').split('::')[-1] == 'rotate' and (e.callee or '').startswith('std::') and len(e.args) == 3:
+            a_, b_, c_ = [self.ev(x, env) for x in e.args]
+            if all(isinstance(x, Ptr) for x in (a_, b_, c_)) and a_.arr is b_.arr is c_.arr and a_.i <= b_.i <= c_.i:
+                seg = a_.arr[a_.i:c_.i]
+                k_ = b_.i - a_.i
+                a_.arr[a_.i:c_.i] = seg[k_:] + seg[:k_]
+                return Ptr(a_.arr, a_.i + (c_.i - b_.i))
+            raise AnalysisBroken('mini-interpreter: std::rotate on `%s`' % e.text()[:50])
         if k in ('CallExpr', 'CXXMemberCallExpr'):
             args = [self.ev(a, env) for a in e.args]
             self.cur_call = (e, env)           # a hook may ask for the object of a member call: self.call_object()
@@ -485,8 +639,17 @@ class Mini:
             if r is not None:
                 return r[0]
             g = [x for x in (self.db.fn(e.callee, required=False, all=True) or []) if x.body is not None] if e.callee else []
+            if len(g) > 1 and getattr(e.fn, 'targs', None) and any(x.targs == e.fn.targs for x in g):
+                g = [x for x in g if x.targs == e.fn.targs]        # the instantiation for the template arguments of the function being interpreted
             if len(g) > 1 and len({(x.file, x.line) for x in g}) == 1:
                 g = g[:1]           # an inline / template function seen in several units
+            if len({(x.file, x.line) for x in g}) > 1 and not getattr(e.fn, 'targs', None):
+                # overloads: the one whose parameter types are the (converted) argument types
+                def _tk(t_):
+                    return (t_ or '').replace('gdstk::', '').replace('struct ', '').replace(' ', '')
+                ov = [x for x in g if len(x.params) == len(e.args) and all(_tk(p_.get('t')) == _tk(a_.t) for p_, a_ in zip(x.params, e.args))]
+                if len({(x.file, x.line) for x in ov}) == 1:
+                    g = ov[:1]
             if len(g) >= 1 and all(getattr(x, 'is_lambda', False) for x in g):
                 # a local lambda: among several of one function, the one defined inside the function being interpreted and before the call
                 inside = [x for x in g if x.file == e.fn.file and e.fn.line <= x.line <= (e.l or x.line)] or g
@@ -526,6 +689,16 @@ class Mini:
                     except Return as rr:
                         return rr.v
                     return None
+            if len(g) > 1 and k == 'CallExpr' and getattr(e.fn, 'targs', None):
+                same = [x for x in g if x.targs == e.fn.targs and len(x.params) == len(args)]
+                if len({(x.file, x.line) for x in same}) == 1:
+                    g = same[:1]        # the instantiation for the template arguments of the function being interpreted
+            if not e.callee and k == 'CallExpr' and e.child('fn') is not None:
+                fv = self.ev(e.child('fn'), env)
+                if callable(fv):
+                    return fv(*args)
+                if isinstance(fv, tuple) and fv and fv[0] == 'function':
+                    g = [x for x in (self.db.fn(fv[1], required=False, all=True) or []) if x.body is not None][:1]
             if len(g) == 1 and k == 'CallExpr':
                 en = {p['n']: a for p, a in zip(g[0].params, args)}
                 for p, a_node in zip(g[0].params, e.args):
@@ -534,6 +707,10 @@ class Mini:
                         cur_ = env.get(a0.n)
                         en[p['n']] = cur_ if isinstance(cur_, Ref) else Ref(env, a0.n)     # non-const reference parameter: the callee writes the caller's variable
                         env.setdefault(a0.n, 0)
+                    elif '&' in (p.get('t') or '') and 'const' not in (p.get('t') or '') and a0 is not None and a0.k == 'ArraySubscriptExpr':
+                        b_, i_ = self.ev(a0.child('base') or a0.c[0], env), self.ev(a0.child('idx') or a0.c[1], env)
+                        if isinstance(b_, Ptr) and not isinstance(b_, DPtr):
+                            en[p['n']] = Ref(ListView(b_.arr), b_.i + i_)          # a reference to an array element
                 try:
                     self.run(g[0].body, en)
                 except Return as rr:
@@ -557,6 +734,8 @@ class Mini:
             o_ = o_.env.get(o_.name)
         if isinstance(o_, Ptr):
             o_ = self.load(o_)
+        if isinstance(o_, Obj) and t.n in _VEC2_ALIAS and t.n not in o_ and (_VEC2_ALIAS[t.n] in o_ or _is_vec2(_strip_casts(b_).t if _strip_casts(b_) is not None else '')):
+            return (o_, _VEC2_ALIAS[t.n])
         return (o_, t.n) if isinstance(o_, Obj) else None
 
     def call_object(self):
@@ -601,6 +780,17 @@ class Mini:
                         self.writable.add(id(arr))
                         env[v.n] = Ptr(arr, 0)
                         continue
+                    i0_ = _strip_casts(v.child('init')) if v.child('init') is not None else None
+                    if '&' in (v.t or '') and '&&' not in (v.t or '') and i0_ is not None and i0_.k in ('ArraySubscriptExpr', 'UnaryOperator') and (i0_.k == 'ArraySubscriptExpr' or i0_.op == '*'):
+                        # a reference bound to an array element is that element (not a copy of it)
+                        if i0_.k == 'ArraySubscriptExpr':
+                            b_, ix_ = self.ev(i0_.child('base') or i0_.c[0], env), self.ev(i0_.child('idx') or i0_.c[1], env)
+                            p_ = type(b_)(b_.arr, b_.i + ix_) if isinstance(b_, Ptr) else None
+                        else:
+                            p_ = self.ev(i0_.child('sub'), env)
+                        if isinstance(p_, Ptr) and not isinstance(p_, DPtr) and not isinstance(self.load(p_), Obj):
+                            env[v.n] = Ref(ListView(p_.arr), p_.i)
+                            continue
                     if v.child('init') is None and self.obj_store and self.db.records.get((v.ct or v.t or '').replace('const ', '').strip()) is not None:
                         env[v.n] = Obj()
                         continue
@@ -749,7 +939,7 @@ def array_hook(mi_ref, extra=None):
     def grow(o, n):
         it, cnt = o.get('items', 0), o.get('count', 0)
         lst = list(it.arr[it.i:it.i + cnt]) if isinstance(it, Ptr) else []
-        lst += [Obj() for _ in range(n)]
+        lst += [Obj() for _ in range(max(o.get('capacity', 0) - cnt, 0) + n)]        # (the slots between count and capacity stay)
         mi_ref[0].writable.add(id(lst))
         o['items'] = Ptr(lst, 0)
         o['capacity'] = len(lst)
@@ -761,6 +951,16 @@ def array_hook(mi_ref, extra=None):
                 return r
         c = callee or ''
         short, cls = c.split('::')[-1], c.rsplit('::', 1)[0]
+        if cls.startswith('gdstk::Array<') and short == 'copy_from' and len(args) == 1 and isinstance(args[0], Obj):
+            o = mi_ref[0].call_object()
+            if not isinstance(o, Obj):
+                raise AnalysisBroken('mini-interpreter: Array method on something that is not an array object')
+            src = args[0]
+            n = src.get('count', 0)
+            lst = [Obj(v) if isinstance(v, Obj) else v for v in (src['items'].arr[src['items'].i:src['items'].i + n] if n else [])]
+            mi_ref[0].writable.add(id(lst))
+            o['items'], o['count'], o['capacity'] = (Ptr(lst, 0) if lst else 0), n, n
+            return (None,)
         if cls.startswith('gdstk::Array<') and short in ('ensure_slots', 'append', 'append_unsafe', 'extend', 'clear'):
             o = mi_ref[0].call_object()
             if not isinstance(o, Obj):
